@@ -83,11 +83,17 @@ Verdict(op) ==
 \* ---------------------------------------------------------- subscriptions
 SubsOf(x, fam) == {u \in x.subs : u.fam = fam}
 RECURSIVE FireAll(_, _, _, _)
-\* one callback per subscriber, in subscriber order: <<subscriber, kind, datum, parts>>
+\* one callback per subscriber, in subscriber order: <<subscriber, kind, datum, parts>>.  A subscriber
+\* registered `once` unsubscribes itself from inside its callback (the delivery in progress is not disturbed).
 FireAll(x, S, kind, d) ==
   IF S = {} THEN x
   ELSE LET u == CHOOSE v \in S : \A v2 \in S : v.id <= v2.id
-       IN FireAll([x EXCEPT !.cb = Append(@, <<u.id, kind, d, <<>> >>)], S \ {u}, kind, d)
+           x1 == [x EXCEPT !.cb = Append(@, <<u.id, kind, d, <<>> >>)]
+           x2 == IF u.once /\ u \in x1.subs
+                 THEN LET y == [x1 EXCEPT !.subs = @ \ {u}] IN
+                      IF u.fam \in {"adv", "rawadv"} THEN [y EXCEPT !.w = Append(@, "UnsubscribeBluetoothLEAdvertisementsRequest")] ELSE y
+                 ELSE x1
+       IN FireAll(x2, S \ {u}, kind, d)
 Parts(x, u, key) == IF \E r \in x.img : r.sub = u.id /\ r.key = key
                     THEN (CHOOSE r \in x.img : r.sub = u.id /\ r.key = key).parts ELSE <<>>
 RECURSIVE Camera(_, _, _)
@@ -165,8 +171,8 @@ UserOp(x0, i, k, a, h) ==
    LET op == [k |-> k, a |-> a, h |-> h, st |-> "pending", wake |-> "none", acc |-> <<>>,
               ph |-> IF k = "connect" THEN "conn" ELSE "none", at |-> x.now + TBle]
        x1 == AddTimer(Write([x EXCEPT !.ops[i] = op], Request(k)), OpTimer(i), x.now + TBle)
-   IN CASE k = "notify"  -> [x1 EXCEPT !.subs = @ \cup {[id |-> OpNum(i), fam |-> "ndata", a |-> a, h |-> h]}]
-        [] k = "connect" -> [x1 EXCEPT !.subs = @ \cup {[id |-> OpNum(i), fam |-> "connstate", a |-> a, h |-> 0]}]
+   IN CASE k = "notify"  -> [x1 EXCEPT !.subs = @ \cup {[id |-> OpNum(i), fam |-> "ndata", a |-> a, h |-> h, once |-> FALSE]}]
+        [] k = "connect" -> [x1 EXCEPT !.subs = @ \cup {[id |-> OpNum(i), fam |-> "connstate", a |-> a, h |-> 0, once |-> FALSE]}]
         [] OTHER -> x1
 
 OpTimerFire(x0, i) ==
@@ -213,9 +219,9 @@ SubRequest(fam) == CASE fam = "states" -> "SubscribeStatesRequest" [] fam = "log
                      [] fam = "svc" -> "SubscribeHomeassistantServicesRequest" [] fam = "hastate" -> "SubscribeHomeAssistantStatesRequest"
                      [] fam \in {"adv", "rawadv"} -> "SubscribeBluetoothLEAdvertisementsRequest"
                      [] fam = "free" -> "SubscribeBluetoothConnectionsFreeRequest"
-UserSub(x0, id, fam) ==
+UserSub(x0, id, fam, once) ==
   LET x == Begin(x0) IN
-  IF ~x.up THEN x ELSE Write([x EXCEPT !.subs = @ \cup {[id |-> id, fam |-> fam, a |-> 0, h |-> 0]}], SubRequest(fam))
+  IF ~x.up THEN x ELSE Write([x EXCEPT !.subs = @ \cup {[id |-> id, fam |-> fam, a |-> 0, h |-> 0, once |-> once]}], SubRequest(fam))
 \* the unsubscribe functions the API hands out (advertisements also tell the device)
 UserUnsub(x0, id, fam) ==
   LET x == Begin(x0) y == [x EXCEPT !.subs = {u \in @ : u.id # id}, !.img = {r \in @ : r.sub # id}] IN
